@@ -538,3 +538,136 @@ def rule_ss_hsem(ctx, R):
             R.ok(inst, where)
     if n < 500:
         raise AnalysisBroken('RV-SS-HSEM: only %d cases evaluated' % n)
+
+
+# ---------------------------------------------------------------------------------------------------------------------------
+# memory-form integer instructions and ISTORE (scalar back-end)
+
+class MemMachine(Machine):
+    """x5 = scratchpad base; x10 / x11 / x1 hold the L1 / L2 / L3 masks (that the template loads exactly these values is MEM-JITMASK's obligation)"""
+
+    def __init__(self, regmap, K, regs):
+        Machine.__init__(self, regmap)
+        self.x[regs['spad']] = atom(('spad',))
+        self.x[regs['L1']] = const(K['L1'])
+        self.x[regs['L2']] = const(K['L2'])
+        self.x[regs['L3']] = const(K['L3'])
+        self.stores = []
+
+    def step16(self, w, where):
+        from rules import x86hsem as X
+        q, f3 = w & 3, (w >> 13) & 7
+        if q == 0 and f3 in (3, 7):                      # c.ld / c.sd
+            r1 = 8 + ((w >> 7) & 7)
+            r2 = 8 + ((w >> 2) & 7)
+            off = (((w >> 10) & 7) << 3) | (((w >> 5) & 3) << 6)
+            a = add(self.get(r1), const(off))
+            if f3 == 3:
+                self.put(r2, X.ld64(a))
+                return 'c.ld'
+            self.stores.append((a, self.get(r2)))
+            return 'c.sd'
+        if q == 1 and f3 == 4 and ((w >> 10) & 3) == 3 and not (w >> 12) & 1 and ((w >> 5) & 3) == 3:      # c.and
+            rdp, rs2p = 8 + ((w >> 7) & 7), 8 + ((w >> 2) & 7)
+            self.put(rdp, X.and_(self.get(rdp), self.get(rs2p)))
+            return 'c.and'
+        return Machine.step16(self, w, where)
+
+    def step32(self, w, where):
+        from rules import x86hsem as X
+        opc, rd, f3, rs1, rs2, f7 = w & 0x7f, (w >> 7) & 31, (w >> 12) & 7, (w >> 15) & 31, (w >> 20) & 31, w >> 25
+        if opc == 0x03 and f3 == 3:
+            self.put(rd, X.ld64(add(self.get(rs1), const(sx(w >> 20, 12)))))
+            return 'ld'
+        if opc == 0x23 and f3 == 3:
+            off = sx(((w >> 25) << 5) | ((w >> 7) & 31), 12)
+            self.stores.append((add(self.get(rs1), const(off)), self.get(rs2)))
+            return 'sd'
+        if opc == 0x33 and f7 == 0 and f3 == 7:
+            self.put(rd, X.and_(self.get(rs1), self.get(rs2)))
+            return 'and'
+        if opc == 0x13 and f3 == 7:
+            self.put(rd, X.and_(self.get(rs1), const(sx(w >> 20, 12))))
+            return 'andi'
+        return Machine.step32(self, w, where)
+
+
+def rule_mem_hsem(ctx, R):
+    from rules import x86hsem as X
+    F, hs = jit.handlers(ctx, 'rv64')
+    R.rule('RV-MEM-HSEM', 'for the six memory-form integer instructions and ISTORE the words the RV64 handler and its address helpers emit, given their architectural meaning on terms with x5 as the scratchpad base and the mask registers holding the '
+           'L1 / L2 / L3 masks, read (write) the 8 bytes at scratchpad + ((src + sext(imm32)) & mask) with the mask chosen by mod.mem (ISTORE: L3 when mod.cond >= StoreL3Condition; src == dst: the constant address imm32 & L3 mask) and combine them '
+           'with dst as specification 5.2 prescribes; every dst x src, mod.mem in {0, 1, 3}, boundary immediates', min_instances=2500)
+    R.saw(config='K3', unit='src/jit_compiler_rv64.cpp')
+    FI = astq.Facts(ctx, 'K0')
+    K = {'L1': FI.const('randomx::ScratchpadL1Mask'), 'L2': FI.const('randomx::ScratchpadL2Mask'), 'L3': FI.const('randomx::ScratchpadL3Mask'), 'StoreL3Condition': FI.const('randomx::StoreL3Condition')}
+    regs = {'spad': F.const('randomx::SpadReg'), 'L1': F.const('randomx::MaskL1Reg'), 'L2': F.const('randomx::MaskL2Reg'), 'L3': F.const('randomx::MaskL3Reg')}
+    if None in K.values() or None in regs.values():
+        raise AnalysisBroken('RV-MEM-HSEM: mask constants / registers not found (%s %s)' % (K, regs))
+    regR = [f for f in F.in_file('jit_compiler_rv64.cpp') if f['name'] == 'regR']
+    regmap = []
+    for i in range(8):
+        ev = KBEval(F, {regR[0]['params'][0]['id']: KB.const(32, i)})
+        rets = []
+        ev._exec(regR[0]['body'], rets)
+        regmap.append(rets[0].value())
+    n = 0
+    for name in X.MEM_HANDLERS:
+        if name not in hs:
+            raise AnalysisBroken('RV-MEM-HSEM: handler of %s not found' % name)
+        h = hs[name].f
+        where = '%s:%d' % (h['file'], h['line'])
+        R.saw(fn=h['q'])
+        for d in range(8):
+            for s in range(8):
+                for modmem in (0, 1, 3):
+                    for modcond in ((0, 13, 14, 15) if name == 'ISTORE' else (0,)):
+                        imms = X.MEM_IMMS if s == d or (d + s + modmem) % (3 if getattr(ctx, 'tier', 'quick') == 'thorough' else 7) == 0 else X.MEM_IMMS[5:7]
+                        for imm in imms:
+                            n += 1
+                            mod = modmem | (modcond << 4)
+                            fields = {'dst': KB.const(8, d), 'src': KB.const(8, s), 'mod': KB.const(8, mod)}
+                            ov = {'randomx::Instruction::getImm32': KB.const(32, imm), 'randomx::Instruction::getModShift': KB.const(32, (mod >> 2) & 3),
+                                  'randomx::Instruction::getModMem': KB.const(32, modmem), 'randomx::Instruction::getModCond': KB.const(32, modcond)}
+                            ex = RvExec(F, fields, ov)
+                            ex.run(h, [None, None, KB.const(32, 7), KB.const(32, 0)])
+                            m = MemMachine(regmap, K, regs)
+                            tr, bad = [], None
+                            for size, w, wh in ex.words:
+                                v = w.value()
+                                if v is None:
+                                    raise AnalysisBroken('RV-MEM-HSEM: a word emitted at %s is not constant (%s)' % (wh, w.hexpat()))
+                                try:
+                                    tr.append(m.step16(v, wh) if size == 2 else m.step32(v, wh))
+                                except NotInteger as e:
+                                    bad = 'after `%s` the handler emits %s (%s)' % (' ; '.join(tr), e, wh)
+                                    break
+                            if bad is None:
+                                exp, exp_st = X.mem_expected(name, d, s, imm, modmem, modcond, K)
+                                got = [m.get(regmap[i]) for i in range(8)]
+                                pairs = [('r%d' % i, got[i], exp[i]) for i in range(8)]
+                                if len(m.stores) != len(exp_st):
+                                    bad = '%d store(s) after `%s`, the specification has %d' % (len(m.stores), ' ; '.join(tr), len(exp_st))
+                                else:
+                                    for (ga, gv), (ea, ev_) in zip(m.stores, exp_st):
+                                        pairs.append(('store address', ga, ea))
+                                        pairs.append(('stored value', gv, ev_))
+                                for what, g_, e_ in (pairs if bad is None else ()):
+                                    if g_ != e_:
+                                        differs = None
+                                        for vals in T.VALUATIONS:
+                                            a_, b_ = T.term_eval(g_.canon(), vals), T.term_eval(e_.canon(), vals)
+                                            if a_ != b_:
+                                                differs = (vals, a_, b_)
+                                                break
+                                        if differs is None:
+                                            raise AnalysisBroken('RV-MEM-HSEM: %s dst=r%d src=r%d: %s is %s, the specification says %s; equivalence undecided' % (name, d, s, what, T.term_show(g_, None), T.term_show(e_, None)))
+                                        bad = '%s = %s after `%s` (specification: %s); e.g. the code gives %#x, the specification %#x' % (what, T.term_show(g_, None), ' ; '.join(tr), T.term_show(e_, None), differs[1], differs[2])
+                                        break
+                            inst = '%s dst=r%d src=r%d mod.mem=%d%s imm32=%#x' % (name, d, s, modmem, ' mod.cond=%d' % modcond if name == 'ISTORE' else '', imm)
+                            if bad:
+                                R.violation(inst, where, expected='as in specification 5.2 (address = (src + sext(imm32)) & mask)', found=bad)
+                            else:
+                                R.ok(inst, where)
+    if n < 2500:
+        raise AnalysisBroken('RV-MEM-HSEM: only %d cases evaluated' % n)
